@@ -41,6 +41,7 @@ def showBal (l : Led) : String :=
 def step (fresh : Bool) (s : S) : List String → S × String
   | ["reset"] => (init, "ok")
   | ["bal"] => (s, showBal s.led)
+  | ["trace", _] => (s, "ok")
   | mode :: rest =>
     if mode = "xb" ∨ mode = "xt" then
       -- several transfers in one request: each atomic, all committed together
